@@ -93,6 +93,7 @@ impl NodeCfg {
             },
             raw_tx: false,
             dhcp: false,
+            dhcp_leased_unapplied: vec![],
         }
     }
     pub fn rx_verifies_all(&self) -> bool {
